@@ -19,13 +19,17 @@ from vf.ref import pk
 
 KEYDIR = os.path.join(VERIF_DIR, "fixtures", "keys")
 RSA_POOL = {2048: 8, 3072: 4, 4096: 4}
+RSA_POOL_E3 = {2048: 2, 3072: 1}  # keys with public exponent 3 (the shortest exponent encoding); used only where a description asks for them
 CURVE_OBJ = {"secp256r1": ec.SECP256R1(), "secp384r1": ec.SECP384R1(), "secp521r1": ec.SECP521R1()}
 
 
 @functools.lru_cache(maxsize=None)
-def rsa_key(bits: int, index: int) -> rsa.RSAPrivateKey:
-    index %= RSA_POOL[bits]
-    with open(os.path.join(KEYDIR, "rsa%d_%d.pem" % (bits, index)), "rb") as f:
+def rsa_key(bits: int, index: int, e: int = 65537) -> rsa.RSAPrivateKey:
+    if e == 3:
+        name = "rsa%d_e3_%d.pem" % (bits, index % RSA_POOL_E3[bits])
+    else:
+        name = "rsa%d_%d.pem" % (bits, index % RSA_POOL[bits])
+    with open(os.path.join(KEYDIR, name), "rb") as f:
         return ser.load_pem_private_key(f.read(), None)
 
 
@@ -84,11 +88,18 @@ def rsa_key_desc(sizes=(2048, 3072, 4096)):
     )
 
 
+def rsa_key_desc_e3():
+    """RSA keys with public exponent 3: {"t": "rsa", "bits": ..., "i": ..., "e": 3}."""
+    return st.sampled_from(sorted(RSA_POOL_E3)).flatmap(
+        lambda b: st.integers(0, RSA_POOL_E3[b] - 1).map(lambda i: {"t": "rsa", "bits": b, "i": i, "e": 3})
+    )
+
+
 def key_from_desc(desc: dict):
     """cryptography private key object for a description."""
     if desc["t"] == "ec":
         return ec_key(desc["curve"], int(desc["d"]))
-    return rsa_key(int(desc["bits"]), int(desc["i"]))
+    return rsa_key(int(desc["bits"]), int(desc["i"]), int(desc.get("e", 65537)))
 
 
 def has_leading_zero(desc: dict) -> bool:
